@@ -43,7 +43,7 @@ func (repl) Units(tier string) int {
 func (repl) Describe() core.EngineInfo {
 	return core.EngineInfo{
 		Level: "exploration",
-		Rule: "a unit is one generated sequence of 3-14 (one unit in twelve: 22-62, dense in block scopes) well-typed, define-before-use top-level statements (imports, var/const/:=, assignments, if/for/range/switch, type, function and method definitions, calls reporting through a native and through print, captured function values, calls through block-scoped function variables, bare call statements) ending in an expression; it is cut into consecutive messages at every set of boundaries (all 2^(n-1) when n <= 7, seeded samples beyond) and each message is delivered by a top-level Eval or at a yield inside a suspended unrelated script, with one shared WithEvalImports map as cli.options does. " +
+		Rule: "a unit is one generated sequence of 3-14 (one unit in twelve: 22-62, one in ninety: 220-420, dense in block scopes) well-typed, define-before-use top-level statements (imports, var/const/:=, assignments, if/for/range/switch, type, function and method definitions, calls reporting through a native and through print, captured function values, calls through block-scoped function variables, bare call statements, redefinitions with another arity, re-bound import aliases, string and float constants declared twice, a function naming a package before its import, one statement in ten programs failing at run time) ending in an expression; it is cut into consecutive messages at every set of boundaries (all 2^(n-1) when n <= 7, seeded samples beyond) and each message is delivered by a top-level Eval or at a yield inside a suspended unrelated script, with one shared WithEvalImports map as cli.options does. " +
 			"A case is one cut+delivery schedule, compared with one Eval of the joined text on a fresh VM: stdout, native observation history, last returned values, every declared global. non-trivial = at least two messages; distinct = (statement kinds, cut vector, delivery vector)",
 		Real:       []string{"goatlang Eval (tokenize, parse, loadImports, compile against persistent globals with fresh locals, run), WithEvalImports, Yield"},
 		Stubs:      []string{"readline / REPL loop of cli -> message schedule", "time.Sleep -> Yield + simulated clock"},
